@@ -17,6 +17,14 @@ CHECKS = {
    text="Generated AppendHeader histories (all static names, arbitrary-byte names/values, boundary lengths, store/sensitive flags, compression switches, SetMaxTableSize schedules incl. several changes between blocks) must decode, under a strict reference decoder configured with the peer's limits, to the same fields with the same sensitivity, keep both tables equal, stay within the limit and announce lowered limits. Exploration only.",
    note="Trusted: strict reference decoder + x/net decoder; VerifDynamic hook reads the encoder's table.",
    ref="6.2 C04"),
+ "C05": dict(technique="property-based differential testing (rapid): frames written octet by octet vs the library's reader; the library's writer vs x/net's Framer and a raw header parser",
+   text="Both directions of the frame codec against independent implementations: generated frames of all 10 types with any flag octet, padding, priority section and reserved bits are read and every public getter compared with the written field (plus exact consumption via a sentinel frame); frames built through the public setters are written and read back by x/net. Exploration only.",
+   note="Trusted: in-harness RFC 7540 section 6 layouts (rawframe), x/net Framer.",
+   ref="6.2 C05"),
+ "C16": dict(technique="property-based testing (rapid) with a structure validator oracle, x/net differential, pool-state observer and allocation measurement; native fuzzing in the thorough tier",
+   text="Generated and fuzzed octet streams (well-formed frames, structurally impossible frames, lying lengths, unknown types, truncations at every offset, raw bytes) are read until the first failure; each step is judged by an RFC 7540 section 6 validator (must fail / must succeed), x/net's reading, exact consumption, allocation before rejection and the pool observer (double release, two owners). HPACK.Next on arbitrary octets must make progress and bound its output. Exploration only.",
+   note="Trusted: in-harness structure validator, x/net Framer, the pool hook (observes Get/Put only).",
+   ref="6.2 C16"),
 }
 PENDING = {}  # id -> reason, for properties not claimed (yet)
 
